@@ -4,7 +4,7 @@
    hand models that are run against the real code on every run. *)
 From Coq Require Import ZArith List Bool.
 From MomoCommon Require Import GenPrelude.
-From C09 Require Gen_UIntMath Gen_MemPoolConst Gen_MemPool Gen_MemPoolData PoolLayout PoolLinks PoolArith PoolLinksProofs PoolModel PoolConc PoolConcProofs PoolInv PoolAddr PoolCompl PoolOne PoolU32Prims Gen_MemPoolUInt32 PoolU32 PoolU32List PoolBlkPrims Gen_MemPoolBlk Gen_MemPoolMerge PoolBlk PoolMergeGen.
+From C09 Require Gen_UIntMath Gen_MemPoolConst Gen_MemPool Gen_MemPoolData PoolLayout PoolLinks PoolArith PoolLinksProofs PoolModel PoolConc PoolConcProofs PoolInv PoolAddr PoolCompl PoolOne PoolU32Prims Gen_MemPoolUInt32 PoolU32 PoolU32List PoolBlkPrims Gen_MemPoolBlk Gen_MemPoolMerge PoolBlk PoolMergeGen PoolBlkRefine Gen_MemPoolDel PoolDelGen Gen_MemPoolNewBuf PoolNewBufGen.
 Import ListNotations.
 Local Open Scope Z_scope.
 
@@ -643,6 +643,82 @@ Theorem C09_newblock_frame : forall fresh B A hd bf bcnt nx pv nfi blk hd2 bf' b
   bcnt' hd' = bcnt hd' - 1 /\ blk = Gen_MemPool.pvGetBlock B A hd' (bf hd') /\ bf' hd' = nfi blk.
 Proof. exact PoolBlk.newblock_frame. Qed.
 Print Assumptions C09_newblock_frame.
+
+(* ONE-STEP REFINEMENT generated pvNewBlock -> hand model PoolConc.pvNewBlock (buffer addresses = the model's buffer ids): if the
+   pointer-level state is related to the model world (head = first buffer of the free part, next pointers along it, BufferBytes =
+   the model's, next-free index stored in each buffer's first free block = the model's) and the cells pvNewBuffer() writes are present
+   at the fresh address, the GENERATED function hands out the block the model hands out, ends in the model's head, leaves the model's
+   BufferBytes and list links, and asks the manager exactly when the model creates a buffer - so what the whole-history invariant
+   says about PoolConc.pvNewBlock is said about the generated code *)
+Theorem C09_newblock_refines_model : forall C B A, 2 <= C -> forall w p hd bf bcnt nx pv nfi,
+  PoolBlkRefine.Rel B A w p hd bf bcnt nx nfi -> PoolBlkRefine.PreInit C B A w bf bcnt nx nfi ->
+  let fresh := PoolConc.fresh w in
+  let '(w', (b, i)) := PoolConc.pvNewBlock C w p in
+  let requested := negb (PoolConc.fresh w' =? fresh) in
+  exists hd2 bf' bcnt' nx' pv',
+    Gen_MemPoolBlk.pvNewBlock fresh B A hd bf bcnt nx pv nfi false = Ok (Some (Gen_MemPool.pvGetBlock B A b i), hd2, bf', bcnt', nx', pv') /\
+    PoolBlk.requests hd bcnt nx = requested /\
+    hd2 = PoolConc.hd0 (PoolConc.lfree (PoolConc.getp w' p)) /\ PoolBlkRefine.linked nx' (PoolConc.lfree (PoolConc.getp w' p)) /\
+    (forall c, c <> fresh \/ requested = true -> bf' c = PoolConc.fb w' c /\ bcnt' c = PoolConc.fc w' c).
+Proof. exact PoolBlkRefine.newblock_refines. Qed.
+Print Assumptions C09_newblock_refines_model.
+
+Theorem C09_newblock_refusal_matches_model : forall C B A, 2 <= C -> forall w p hd bf bcnt nx pv nfi,
+  PoolBlkRefine.Rel B A w p hd bf bcnt nx nfi -> PoolBlkRefine.PreInit C B A w bf bcnt nx nfi ->
+  Gen_MemPoolBlk.pvNewBlock (PoolConc.fresh w) B A hd bf bcnt nx pv nfi true =
+    if negb (PoolConc.fresh (fst (PoolConc.pvNewBlock C w p)) =? PoolConc.fresh w) then Ok (None, hd, bf, bcnt, nx, pv)
+    else Gen_MemPoolBlk.pvNewBlock (PoolConc.fresh w) B A hd bf bcnt nx pv nfi false.
+Proof. exact PoolBlkRefine.newblock_refusal_matches_model. Qed.
+Print Assumptions C09_newblock_refusal_matches_model.
+
+(* pvMoveBufferToHead / pvDeleteBuffer (list part) GENERATED = the hand list models (which carry the dll theorems); pvDeleteBlock(block,
+   buffer, index) GENERATED (incl. the two calls) = a closed formula over them: nfi[block] := old first free index, BufferBytes of the
+   buffer := (index, count+1), count 1 -> move to head, count = blockCount -> delete unless it is the head without successor *)
+Theorem C09_generated_movetohead_is_model : forall B A head del bf bc nx pv nfi buffer,
+  Gen_MemPoolDel.pvMoveBufferToHead B A head del bf bc nx pv nfi buffer =
+    match PoolLinks.move_to_head (PoolLinks.mkHeap pv nx) head buffer with
+    | Some (h, hd') => Ok (tt, hd', PoolLinks.hnext h, PoolLinks.hprev h) | None => Stuck end.
+Proof. exact PoolDelGen.generated_movetohead_is_model. Qed.
+Print Assumptions C09_generated_movetohead_is_model.
+
+Theorem C09_generated_deletebuffer_is_model : forall B A head del bf bc nx pv nfi buffer,
+  Gen_MemPoolDel.pvDeleteBuffer B A head del bf bc nx pv nfi buffer =
+    match PoolLinks.delete_buffer (PoolLinks.mkHeap pv nx) head buffer with
+    | Some h => Ok (tt, PoolLinks.hnext h, PoolLinks.hprev h) | None => Stuck end.
+Proof. exact PoolDelGen.generated_deletebuffer_is_model. Qed.
+Print Assumptions C09_generated_deletebuffer_is_model.
+
+Theorem C09_generated_movetohead_dll_inv : forall B A del bf bc nx pv nfi L M R b head,
+  PoolLinksProofs.dll (PoolLinks.mkHeap pv nx) (L ++ b :: M ++ head :: R) ->
+  exists nx' pv', Gen_MemPoolDel.pvMoveBufferToHead B A head del bf bc nx pv nfi b = Ok (tt, b, nx', pv') /\
+    PoolLinksProofs.dll (PoolLinks.mkHeap pv' nx') (L ++ M ++ b :: head :: R).
+Proof. exact PoolDelGen.generated_movetohead_dll. Qed.
+Print Assumptions C09_generated_movetohead_dll_inv.
+
+Theorem C09_generated_deleteblock_is_model : forall C B A head bf bc nx pv nfi block buffer idx,
+  Gen_MemPoolDel.pvDeleteBlock3 C B A head 0 bf bc nx pv nfi block buffer idx =
+    match PoolDelGen.delblock_model C head bf bc (PoolLinks.mkHeap pv nx) nfi block buffer idx with
+    | Some (hd, del, bf', bc', h, nfi') => Ok (tt, hd, del, bf', bc', PoolLinks.hnext h, PoolLinks.hprev h, nfi')
+    | None => Stuck end.
+Proof. exact PoolDelGen.generated_deleteblock_is_model. Qed.
+Print Assumptions C09_generated_deleteblock_is_model.
+
+(* pvNewBuffer GENERATED AS A WHOLE (address part, pvGetBlockIndex, first-block index, BufferBytes, prev/next, begin offset, the loop
+   threading the free chain through the blocks): for all legal parameters and manager addresses it returns the buffer of the layout
+   theorem, sets exactly that buffer's bookkeeping cells, stores in block j the index of block j+1 (the last one -128), and changes
+   no other cell of any map *)
+Theorem C09_generated_newbuffer_full : forall C B A, PoolArith.legal C B A -> forall bf bc nx pv nfi fbi bo begin,
+  PoolArith.begin_ok A (Gen_MemPool.pvGetBufferSize C B A) begin ->
+  exists fb first buffer nfi',
+    PoolLayout.new_buffer_layout C B A begin = Ok (fb, fb - begin, first, buffer) /\
+    Gen_MemPoolNewBuf.pvNewBuffer C B A bf bc nx pv nfi fbi bo begin =
+      Ok (buffer, upd bf buffer first, upd bc buffer (wrapS 8 C), upd nx buffer 0, upd pv buffer 0, nfi',
+          upd fbi buffer first, upd bo buffer (wrapU 16 (fb - begin))) /\
+    (forall j, 0 <= j < C - 1 -> nfi' (PoolLayout.block_of B A buffer first j) = first + j + 1) /\
+    nfi' (PoolLayout.block_of B A buffer first (C - 1)) = -128 /\
+    (forall a, (forall j, 0 <= j < C -> a <> PoolLayout.block_of B A buffer first j) -> nfi' a = nfi a).
+Proof. exact PoolNewBufGen.generated_newbuffer_full. Qed.
+Print Assumptions C09_generated_newbuffer_full.
 
 (* the list surgery of MergeFrom GENERATED (both loops) = the hand model PoolLinks.merge_from for every fuel and heap; hence the dll
    theorem is a theorem about the generated code (reverting 7f37c9f breaks generated_mergefrom_is_model) *)
